@@ -19,6 +19,21 @@ use assert_struct::{assert_struct, Like};
 use std::collections::{BTreeMap, BTreeSet};
 use e2e::vprelude::run_case;
 
+/// A partially ordered type (product order): some pairs are incomparable.
+#[derive(Debug, Clone, PartialEq)]
+pub struct Po(pub i32, pub i32);
+impl PartialOrd for Po {
+    fn partial_cmp(&self, o: &Po) -> Option<std::cmp::Ordering> {
+        use std::cmp::Ordering::*;
+        match (self.0.cmp(&o.0), self.1.cmp(&o.1)) {
+            (a, b) if a == b => Some(a),
+            (Equal, b) => Some(b),
+            (a, Equal) => Some(a),
+            _ => None,
+        }
+    }
+}
+
 pub struct Prefix(pub &'static str);
 impl Like<Prefix> for String { fn like(&self, p: &Prefix) -> bool { self.starts_with(p.0) } }
 """
@@ -290,10 +305,12 @@ def compare(ck, cases, stream):
             mism.append(dict(kind="verdict", case=c))
         elif gk == "fail":
             # token streams print with different spacing under rustc and in process: compare blank-free
-            if [(x[0], _sq(x[1])) for x in ge] != [(x[0], _sq(x[1])) for x in ee]:
+            if [x[0] for x in ge] != [x[0] for x in ee]:
                 mism.append(dict(kind="entries", case=c))
-            elif [x[2] for x in ge] != [x[2] for x in ee] or [_sq(x[3]) for x in ge] != [_sq(x[3]) for x in ee]:
+            elif [x[2] for x in ge] != [x[2] for x in ee]:
                 mism.append(dict(kind="actual-text", case=c))
+            elif [_sq(x[1]) for x in ge] != [_sq(x[1]) for x in ee] or [_sq(x[3]) for x in ge] != [_sq(x[3]) for x in ee]:
+                mism.append(dict(kind="label", case=c))
             elif "assert_struct! failed" not in gmsg:
                 mism.append(dict(kind="header", case=c))
     return stats, mism
